@@ -322,7 +322,8 @@ theorem lineNumberFormat_not_panic (s : Str) : isPanic (lineNumberFormat s) = fa
 wide, `--wrap-max-lines` (when it is a number) is at most `B`, and the tab replacement fits `isize`, then
 start-up ends normally or with a clean refusal — provided the generated arithmetic passes the interval check
 for exactly these bounds (`hwrap`, `hmll`: decided by evaluation in `Props/C03.lean`). -/
-theorem startup_not_panic (o : Opts) (tw B hi W : Nat) (hW : W ≤ isizeMax) (htw : tw ≤ W)
+theorem startup_not_panic (o : Opts) (tw B hi W : Nat) (htwI : tw ≤ isizeMax) (htw : tw ≤ W)
+    (hwid : ∀ n, setWidths o.width tw = .ok (.fixed n) → n ≤ W)
     (hB : ∀ n, parseUsize o.wrapMaxLines = some n → n ≤ B)
     (hwrap : ∃ lo, range [(0, B)] wrapMaxLinesArith = some (lo, hi)) (hu : wrapMaxLinesUnlimited ≤ hi)
     (hmll : rangeArms [(0, hi), (0, usizeMax), (0, W)] configMaxLineLengthArms = true)
@@ -330,8 +331,15 @@ theorem startup_not_panic (o : Opts) (tw B hi W : Nat) (hW : W ≤ isizeMax) (ht
     isPanic (startup o tw) = false := by
   have hi64 : isizeMax ≤ usizeMax := by decide
   unfold startup
-  rcases setWidths_total o.width tw (by omega) with ⟨w, hw, hwle⟩ | he
-  · rw [hw]; simp only
+  rcases setWidths_total o.width tw htwI with ⟨w, hw, hwle⟩ | he
+  · have hwW : maxLineLengthWidthArg w.fixed? tw ≤ W := by
+      unfold maxLineLengthWidthArg
+      split
+      · cases w with
+        | fixed n => exact hwid n hw
+        | «variable» => exact htw
+      · exact htw
+    rw [hw]; simp only
     rcases adaptWrapMaxLines_bound o.wrapMaxLines B hi hB hwrap hu with ⟨ml, hml, hmlle⟩ | ⟨m, hm'⟩
     · rw [hml]; simp only
       split
@@ -340,9 +348,10 @@ theorem startup_not_panic (o : Opts) (tw B hi W : Nat) (hW : W ≤ isizeMax) (ht
         · rename_i e he; have := lineNumberFormat_not_panic o.lnRight; rw [he] at this; cases e <;> first | rfl | exact absurd this (by simp [isPanic])
         · obtain ⟨p0, p, hp0, hp⟩ := panels_total w tw o.ansiFill (fun n h => by have := hwle n h; omega) (by omega)
           rw [hp0]; simp only; rw [hp]; simp only
-          have hmm : ∃ v, (if o.sideBySide = true then configMaxLineLength ml o.maxLineLength tw else .ok o.maxLineLength) = .ok v := by
+          have hmm : ∃ v, (if o.sideBySide = true then configMaxLineLength ml o.maxLineLength (maxLineLengthWidthArg w.fixed? tw)
+              else .ok o.maxLineLength) = .ok v := by
             split
-            · exact configMaxLineLength_ok hmll ml _ tw hmlle hm htw
+            · exact configMaxLineLength_ok hmll ml _ _ hmlle hm hwW
             · exact ⟨_, rfl⟩
           obtain ⟨v, hv⟩ := hmm
           rw [hv]; simp only
@@ -351,5 +360,12 @@ theorem startup_not_panic (o : Opts) (tw B hi W : Nat) (hW : W ≤ isizeMax) (ht
           rfl
     · rw [hm']; rfl
   · rw [he]; rfl
+
+/-- an accepted `--width` fits `isize` -/
+theorem setWidths_fixed_le (width : Option Str) (tw n : Nat) (htw : tw ≤ isizeMax)
+    (h : setWidths width tw = .ok (.fixed n)) : n ≤ isizeMax := by
+  rcases setWidths_total width tw htw with ⟨w, hw, hle⟩ | he
+  · rw [hw] at h; cases h; exact hle n rfl
+  · rw [he] at h; cases h
 
 end Startup
